@@ -135,7 +135,7 @@ fn cfg_sections(rng: &mut Rng, e: &Engine) -> Vec<CfgSection> {
     if mask & 8 != 0 {
         let n = rng.below(4);
         let unb = if rng.chance(1, 6) { edge } else { *rng.pick(&[1u64, 120, 120, 86_400, 86_400, 21 * 86_400, 21 * 86_400, u64::MAX, u64::MAX - 1_000_000]) };
-        v.push(CfgSection::Native { unbonding: unb, validators: (0..n).map(|_| rng.below(5) as u8).collect(), staker: rng.below(3) as u8, collector: rng.below(3) as u8 });
+        v.push(CfgSection::Native { unbonding: unb, validators: (0..n).map(|_| rng.below(5) as u8).collect(), staker: rng.below(3) as u8, collector: rng.below(3) as u8, upper: rng.chance(1, 6) });
     }
     if mask & 16 != 0 {
         v.push(CfgSection::Protocol { min_stake: *rng.pick(&[0u128, 1, 100, 1_000_000]), oracle: rng.chance(85, 100), channel: if rng.chance(1, 3) { rng.below(5000) } else { e.sw.channel }, spell: rng.below(4) as u8 });
@@ -359,7 +359,8 @@ pub fn next_op(e: &Engine, rng: &mut Rng) -> Op {
                     }
                     7 | 8 => Rcpt::SelfAddr,
                     9..=11 => Rcpt::Proto(rng.below(8) as u8),
-                    12..=16 => Rcpt::Native(rng.below(8) as u8),
+                    12..=15 => Rcpt::Native(rng.below(8) as u8),
+                    16 => Rcpt::NativeUpper(rng.below(8) as u8),
                     17 => Rcpt::NativeStaker,
                     _ => Rcpt::Garbage(rng.below(6) as u8),
                 }
@@ -455,7 +456,8 @@ pub fn next_op(e: &Engine, rng: &mut Rng) -> Op {
         8 => Op::Recover {
             caller: if rng.chance(1, 2) { Who::User(rng.below(8) as u8) } else { who_any(rng) },
             paginated: *rng.pick(&[None, Some(true), Some(false)]),
-            receiver: match rng.below(8) {
+            receiver: match rng.below(9) {
+                8 => Some(100 + rng.below(8) as u8),
                 0..=3 => None,
                 4 => Some(250),
                 5 => Some(251),
